@@ -183,6 +183,8 @@ func (c *cluster) load(cli EtcdClient, key string) int64 {
 func (c *cluster) handleChanges(key string, kvs []KV) {
 	var add []KV
 	var remove []KV
+	// 键还在、但值变了（发布者过期后用同一个键重新注册）的旧值
+	var replaced []KV
 
 	c.lock.Lock()
 	listeners := append([]UpdateListener(nil), c.listeners[key]...)
@@ -200,8 +202,13 @@ func (c *cluster) handleChanges(key string, kvs []KV) {
 			m[kv.Key] = kv.Val
 		}
 		for k, v := range vals {
-			if vals, ok := m[k]; !ok || v != vals {
+			if vals, ok := m[k]; !ok {
 				remove = append(remove, KV{
+					Key: k,
+					Val: v,
+				})
+			} else if v != vals {
+				replaced = append(replaced, KV{
 					Key: k,
 					Val: v,
 				})
@@ -219,6 +226,14 @@ func (c *cluster) handleChanges(key string, kvs []KV) {
 		c.values[key] = m
 	}
 	c.lock.Unlock()
+
+	// 同一个键换了值：监听者按键移除，所以必须先移除旧值再新增，
+	// 否则随后的移除会把刚加上的新值删掉，旧值却永远留着
+	for _, kv := range replaced {
+		for _, l := range listeners {
+			l.OnDelete(kv)
+		}
+	}
 
 	// 处理新增
 	for _, kv := range add {
